@@ -1,4 +1,5 @@
 import F3.Proofs.ChainXWanted
+import F3.Gen.ChainX
 /-!
 # C18 — Chain exchange: admitted chains are retrievable by key, wanted chains are kept
 
@@ -349,5 +350,48 @@ example : validate ⟨2, 2, 3, 10⟩ ⟨6, some [1]⟩ 1000 none = .reject .unde
 /-- prune: instance 5 goes, 6 and 7 stay -/
 example : let s := run (init ⟨2, 2, 3, 10⟩) [.get 5 [1], .get 6 [1], .get 7 [1], .prune 6]
     IMap.instances s.wanted = [6, 7] := by decide
+
+/-! ## Regenerated: the pubsub validator as it stands in `chainexchange/pubsub.go`
+
+`F3.Gen.ChainX.validatePubSubMessage` is translated on every run (`tools/go2lean/targets.d/ChainX.json`)
+from the statements of `validatePubSubMessage` after decoding: the zero-chain test, `Chain.Validate()`,
+the tagless `switch` on the instance window (`uint64` addition wrapped) and on the base of the current
+instance, the timestamp window, with the codes 0 = `ValidationAccept`, 1 = `ValidationReject`,
+2 = `ValidationIgnore`. `IsZero()`, the error of `Validate()`, `msgBase.Equal(currentBase)`, the clock
+reading and `maxTimestampAge.Milliseconds()` are parameters. -/
+
+/-- what pubsub sees of a verdict (the model additionally records the reason) -/
+def verdictCode : Verdict → Int
+  | .accept => 0
+  | .reject _ => 1
+  | .ignore _ => 2
+
+/-- **The model's validator is the source's.** For every option set, progress, clock reading and decoded
+message — all `uint64` values and beyond, wrap-around of `current.ID + maxInstanceLookahead` included —
+the verdict class (accept / reject / ignore) of `F3.ChainX.validate` is what the regenerated body of
+`validatePubSubMessage` returns: same order of checks, same window bounds, same comparisons. -/
+theorem validator_is_regenerated (o : Opts) (p : Progress) (now : Int) (m : Msg) :
+    verdictCode (validate o p now (some m)) =
+      F3.Gen.ChainX.validatePubSubMessage
+        (decide ((p.input.getD []).head? = (chainIds m.chain).head?)) (decide (m.chain = [])) now m.inst m.ts p.id
+        p.input.isSome (!chainValid m.chain) o.maxAgeMs o.lookahead := by
+  unfold validate F3.Gen.ChainX.validatePubSubMessage
+  have e1 : F3.GoInt.u64 ((p.id : Int) + (o.lookahead : Int)) =
+      (((p.id + o.lookahead) % F3.ChainX.u64 : Nat) : Int) := by
+    unfold F3.GoInt.u64 F3.ChainX.u64; omega
+  rw [e1]
+  generalize (p.id + o.lookahead) % F3.ChainX.u64 = a
+  simp only [Bool.or_eq_true, Bool.and_eq_true, decide_eq_true_eq, decide_eq_false_iff_not,
+    Bool.not_eq_eq_eq_not, Bool.not_true, gt_iff_lt, Int.ofNat_lt, Int.natCast_inj]
+  repeat' split
+  all_goals (first | rfl | (exfalso; omega) | (exfalso; simp_all; done))
+
+-- non-vacuity: the three codes from the generated code, incl. the wrapped look-ahead bound
+example : F3.Gen.ChainX.validatePubSubMessage true false 1000 9 1000 6 true false 10 3 = 0 ∧
+    F3.Gen.ChainX.validatePubSubMessage true false 1000 10 1000 6 true false 10 3 = 2 ∧
+    F3.Gen.ChainX.validatePubSubMessage false false 1000 6 1000 6 true false 10 3 = 1 ∧
+    F3.Gen.ChainX.validatePubSubMessage false false 1000 6 1000 6 false false 10 3 = 0 ∧
+    F3.Gen.ChainX.validatePubSubMessage true false 1000 6 989 6 true false 10 3 = 2 ∧
+    F3.Gen.ChainX.validatePubSubMessage true false 1000 (2 ^ 64 - 1) 1000 (2 ^ 64 - 2) true false 10 3 = 2 := by decide
 
 end F3.Props.C18
